@@ -162,6 +162,8 @@ class Runner:
                 else:
                     self.stats['write_faults'] += 1
                     if ok_exit and ok_state:
+                        if shown == 0:
+                            chk.violation('write_status', 'sync: parity write error at stripe %d but status shows has_bad:0 has_unsynced:0' % pos, rep)
                         self.stats['satisfied'] += 1
                         continue
                     n = case['cache']
@@ -178,12 +180,13 @@ class Runner:
                         key = None
                         what = 'REGRESSION of F-C08-last-writer-errors-lost: ' + what
                     elif r.rc != 0 and v['healthy']:
-                        key = KEY_SYNCED
+                        # F-C08-parity-write-error-recorded-synced was repaired in /repo (0ecd44a: the stripes of the failed writes are marked
+                        # bad): a stripe recorded synced and healthy after a failed parity write is a regression
+                        key = None
+                        what = 'REGRESSION of F-C08-parity-write-error-recorded-synced: ' + what
                     else:
                         key = None
-                    if key:
-                        self.stats['known'][key] += 1
-                    chk.violation('write_' + (key or 'other'), what, rep, finding_key=key)
+                    chk.violation('write_regression' if what.startswith('REGRESSION') else 'write_other', what, rep)
             # ---- other stripes processed normally (no bail: EIO only and limit not reached)
             hit = {t[1] for t in targets}
             if not bailed:
@@ -194,14 +197,16 @@ class Runner:
                         chk.violation('others', 'sync with a fault at stripes %s: stripe %d was not processed normally (states %s, stale %s)' % (sorted(x for x in hit if x is not None), p, view[p]['states'], p in stale), rep)
                         break
             # ---- repair: fix -e then sync must leave everything synced with valid parity
-            if 'rd' in nfault_kinds and 'wr' not in nfault_kinds:
+            if nfault_kinds:
                 rf = a.run('fix', '-e')
                 rs = a.run('sync')
+                # a stripe already recorded synced whose parity write failed is repaired by fix -e; its bad mark is cleared by scrub -p bad
+                rb = a.run('scrub', '-p', 'bad') if 'wr' in nfault_kinds else None
                 st3 = a.content()
                 perr3, _ = a.check_parity(st3)
                 left = all_synced(a, st3)
-                if rs.rc != 0 or perr3 or left:
-                    chk.violation('repair', 'after a read fault, `fix -e` (rc %d) and `sync` (rc %d) leave stripes %s unsynced/bad, parity errors %s' % (rf.rc, rs.rc, left, perr3[:2]), rep)
+                if rs.rc != 0 or perr3 or left or (rb is not None and rb.rc != 0):
+                    chk.violation('repair', 'after a %s fault, `fix -e` (rc %d) and `sync` (rc %d) leave stripes %s unsynced/bad, parity errors %s' % ('/'.join(sorted(nfault_kinds)), rf.rc, rs.rc, left, perr3[:2]), rep)
             if len(self.samples) < 4:
                 self.samples.append({k: rep[k] for k in ('scenario', 'nd', 'np', 'cache', 'faults', 'rc', 'stale_stripes', 'bad') if k in rep})
         finally:
